@@ -236,6 +236,8 @@ class GeckoAsyncSpaMan(ABC, AsyncTasks):
     async def __aexit__(self, *exc_info) -> None:
         self.cancel_key_tasks("SPAMAN")
         await self._handle_event(GeckoSpaEvent.SPA_MAN_EXIT, exc_info=exc_info)
+        # Release the connection (its UDP endpoint, tasks and observers) as well
+        await self.async_reset()
         await AsyncTasks.__aexit__(self, exc_info)
 
     ########################################################################
